@@ -2,7 +2,10 @@ package main
 
 import (
 	"fmt"
+	"net"
+	"os"
 	"runtime/debug"
+	"syscall"
 	"time"
 )
 
@@ -130,6 +133,26 @@ func runC09(o Opts) error {
 				map[string]any{"op": "timed", "fault": ft.name, "path": []string{"broadcast", "udp", "tcp"}[ft.path], "fixed_port": bp != 0, "result": res, "dur_ms": ms(dur)},
 				"fault/"+ft.name, true)
 		}
+		// TCP controller that is slow to accept (full accept queue: the connection completes on the SYN retransmission,
+		// about 1 s into the call) and then never answers: the timeout still runs from the start of the call
+		if round == 0 || o.Tier == "thorough" && round%10 == 0 {
+			Ts := 1600 * time.Millisecond
+			for attempt := 0; attempt < 2; attempt++ {
+				dur, ok, connectedAfter := slowAcceptCall(Ts)
+				if !ok {
+					s.Extra["tcp_slow_accept"] = "skipped: the accept queue of the fake controller could not be filled"
+					break
+				}
+				s.Extra["tcp_slow_accept_connected_after_ms"] = ms(connectedAfter)
+				if dur <= Ts+150*time.Millisecond || attempt == 1 {
+					calls++
+					s.Add(fmt.Sprintf("CTimed %d 3%%nat None Timeout %d", ms(Ts), ms(dur)),
+						map[string]any{"op": "timed", "fault": "tcp-slow-accept-then-stall", "path": "tcp", "fixed_port": false, "result": "Timeout", "dur_ms": ms(dur)},
+						"fault/tcp-slow-accept-then-stall", true)
+					break
+				}
+			}
+		}
 		// a batch of mixed concurrent calls, then the accounting
 		specs, udpIDs, tcpIDs := genScenario(r, farm, 6, false)
 		u := farmClient(farm, 0, T, udpIDs, tcpIDs)
@@ -149,4 +172,71 @@ func runC09(o Opts) error {
 		s.Fail(map[string]any{"op": "resources", "fault": "goroutines", "before": gos0, "after": gos1}, fmt.Sprintf("the process holds %d more goroutines after %d calls than before", gos1-gos0, calls))
 	}
 	return s.Close()
+}
+
+// one GetEvent over TCP against a listener with backlog 0 whose accept queue is full until 300 ms into the call
+func slowAcceptCall(T time.Duration) (dur time.Duration, ok bool, connectedAfter time.Duration) {
+	fd, err := syscall.Socket(syscall.AF_INET, syscall.SOCK_STREAM, 0)
+	if err != nil {
+		return 0, false, 0
+	}
+	syscall.SetsockoptInt(fd, syscall.SOL_SOCKET, syscall.SO_REUSEADDR, 1)
+	if err := syscall.Bind(fd, &syscall.SockaddrInet4{Port: 0, Addr: [4]byte{127, 0, 0, 1}}); err != nil {
+		syscall.Close(fd)
+		return 0, false, 0
+	}
+	if err := syscall.Listen(fd, 0); err != nil {
+		syscall.Close(fd)
+		return 0, false, 0
+	}
+	f := os.NewFile(uintptr(fd), "slow-controller")
+	l, err := net.FileListener(f)
+	f.Close()
+	if err != nil {
+		return 0, false, 0
+	}
+	port := l.Addr().(*net.TCPAddr).Port
+	fillers := []net.Conn{}
+	full := false
+	for i := 0; i < 16; i++ {
+		c, err := net.DialTimeout("tcp4", fmt.Sprintf("127.0.0.1:%d", port), 300*time.Millisecond)
+		if err != nil {
+			full = true
+			break
+		}
+		fillers = append(fillers, c)
+	}
+	accepted := make(chan net.Conn, 64)
+	start := time.Now()
+	var firstAccept time.Duration
+	go func() {
+		time.Sleep(300 * time.Millisecond)
+		n := 0
+		for {
+			c, err := l.Accept()
+			if err != nil {
+				close(accepted)
+				return
+			}
+			n++
+			if n == len(fillers)+1 {
+				firstAccept = time.Since(start)
+			}
+			accepted <- c
+		}
+	}()
+	if full {
+		u := farmClient(&Farm{Port: port, TPort: port}, 0, T, nil, []uint32{800000099})
+		start = time.Now()
+		u.GetEvent(800000099, 1)
+		dur = time.Since(start)
+	}
+	l.Close()
+	for c := range accepted {
+		c.Close()
+	}
+	for _, c := range fillers {
+		c.Close()
+	}
+	return dur, full, firstAccept
 }
